@@ -119,7 +119,7 @@ FINDINGS = [
               '(b before a) is rejected (ber.py:755-760 decodes root members and additions in two passes)',
          witness=dict(kind='decode_expect', spec=HDR + 'A ::= SET { a [0] INTEGER, ..., b [1] BOOLEAN OPTIONAL }' + END, codec='ber', type='A',
                       data_hex='31068101ff800105', expected={'a': 5, 'b': True})),
-    dict(key='constraints-check-ignores-size-on-referenced-element', props=['C11'],
+    dict(key='constraints-check-ignores-size-on-referenced-element', props=['C11', 'C12'],
          text='check_constraints ignores a SIZE constraint written on a type reference that is not a SEQUENCE/SET/CHOICE member: B ::= OCTET STRING  '
               'A ::= SEQUENCE OF B (SIZE (1..2)), value [3 octets] is encoded without ConstraintsError (compiler.py:900-903 applies set_size_range '
               'to members only)',
